@@ -26,13 +26,17 @@ type full struct {
 }
 
 type tdReader struct {
-	tv reflect.Value
+	tv     reflect.Value
+	un, pr reflect.Value // the slice fields themselves (they alias the live struct: Len() is current)
 }
 
-func newReader(td *tdigest.TDigest) tdReader { return tdReader{reflect.ValueOf(td).Elem()} }
+func newReader(td *tdigest.TDigest) tdReader {
+	tv := reflect.ValueOf(td).Elem()
+	return tdReader{tv, tv.FieldByName("unprocessed"), tv.FieldByName("processed")}
+}
 
-func (r tdReader) unprocessedLen() int { return r.tv.FieldByName("unprocessed").Len() }
-func (r tdReader) processedLen() int   { return r.tv.FieldByName("processed").Len() }
+func (r tdReader) unprocessedLen() int { return r.un.Len() }
+func (r tdReader) processedLen() int   { return r.pr.Len() }
 
 func (r tdReader) read() full {
 	var f full
